@@ -83,7 +83,7 @@ def main():
     dest = os.path.join(VERIF, "seeded", a.id)
     os.makedirs(dest, exist_ok=True)
     patch = os.path.join(a.worktree, "patch.diff")
-    demos = glob.glob(os.path.join(a.worktree, "demo_*.py"))
+    demos = glob.glob(os.path.join(a.worktree, "demo*.py"))
     if not os.path.exists(patch) or not demos:
         print("missing patch.diff or demo_*.py in", a.worktree)
         return 2
